@@ -14,9 +14,11 @@
        trained on exactly the selected observations (context-free policies other than Thompson Sampling; for
        Thompson Sampling the same holds up to the unused stored sample, see NbrIndep.fit_query_indep).
      * linear learning policies: the row's answer is that of [lin_strip c], the constructor's state keeping only the private
-       generator copies (never read by LinGreedy / LinUCB), trained on the selected observations (nn_row_from_scratch_linear). *)
+       generator copies (never read by LinGreedy / LinUCB), trained on the selected observations (nn_row_from_scratch_linear).
+    KnnUnique.v: the model accepts ANY valid certificate of numpy's argpartition; with pairwise distinct distances two valid certificates select the same
+    positions (permutations of each other), so the oracle decides only the listing order - the freedom the property grants exists at ties only. *)
 From Coq Require Import List ZArith Bool Arith QArith Qcanon Permutation.
-From MW Require Import Num Assoc AssocFacts Rng Par CF CFInv CFClean CFForget CFSpec Matrix Lin Warm WarmInv Nbr NbrFacts NbrIndep LshFacts Clu Tree CellFacts Mab FacadeCF FacadeArms MoreFacts NumLaws CFAlg Sim Extra QcInst OrderFacts ExpIrrel LinInv FacadeLin LpInv NbrInv CluTreeInv FacadeAll ToyFacts C09All C10All LinForget LinSim MatrixFacts GaussJordan LinSpec NbrIndepGen CluIndep C17Lin WarmIdem C14More LshScale TreeLeaf Rename PopSpec CopyFacts StatFacts CluBatch LinWarm.
+From MW Require Import Num Assoc AssocFacts Rng Par CF CFInv CFClean CFForget CFSpec Matrix Lin Warm WarmInv Nbr NbrFacts NbrIndep LshFacts Clu Tree CellFacts Mab FacadeCF FacadeArms MoreFacts NumLaws CFAlg Sim Extra QcInst OrderFacts ExpIrrel LinInv FacadeLin LpInv NbrInv CluTreeInv FacadeAll ToyFacts C09All C10All LinForget LinSim MatrixFacts GaussJordan LinSpec NbrIndepGen CluIndep C17Lin WarmIdem C14More LshScale TreeLeaf Rename PopSpec CopyFacts StatFacts CluBatch LinWarm KnnUnique.
 Import ListNotations.
 
 Theorem C03_radius_neighbourhood_is_closed_ball :
@@ -41,6 +43,26 @@ Theorem C03_knearest_selection_is_valid :
    (j < length (n_cx s))%nat -> ~ In j sel -> leb N (nth i dists (zero N)) (nth j dists (zero N)) = true).
 Proof. exact @knearest_valid. Qed.
 Print Assumptions C03_knearest_selection_is_valid.
+
+Theorem C03_without_ties_the_k_nearest_are_determined_by_the_distances :
+  forall (R : Type) (N : Num R),
+  NumLaws N ->
+  forall (dists : list R) (k : nat) (sel1 sel2 : list nat),
+  distinct_distances N dists ->
+  knn_valid N dists k sel1 = true -> knn_valid N dists k sel2 = true -> Permutation sel1 sel2.
+Proof. exact @distinct_distances_make_the_selection_unique. Qed.
+Print Assumptions C03_without_ties_the_k_nearest_are_determined_by_the_distances.
+
+Theorem C03_knearest_neighbourhood_is_a_function_of_the_distances_without_ties :
+  forall (R A G : Type) (N : Num R),
+  NumLaws N ->
+  forall (s : (@nbr R A G)) (k : nat) (row : list R) (orc1 orc2 sel1 sel2 : list nat),
+  n_kind s = NKNearest k ->
+  distinct_distances N (map (fun c : list R => distance N (n_metric s) c row) (n_cx s)) ->
+  neighborhood N s row orc1 = Some sel1 ->
+  neighborhood N s row orc2 = Some sel2 -> Permutation sel1 sel2.
+Proof. exact @knearest_neighbourhood_is_a_function_of_the_distances. Qed.
+Print Assumptions C03_knearest_neighbourhood_is_a_function_of_the_distances_without_ties.
 
 Theorem C03_history_after_fit :
   forall (R A G : Type) (N : Num R) (RG : RngOps R G) (s : (@nbr R A G)) (g : G) (ds : list A) 
@@ -117,4 +139,17 @@ Definition ex_nbr : @nbr Qc Z nat :=
 Example C03_boundary_row_included :
   neighborhood QcNum ex_nbr [q 0; q 0] [] = Some [0; 1]%nat.
 Proof. vm_compute. reflexivity. Qed.
+
+(* non-vacuity of the uniqueness theorem: distances 3, 1, 2 are pairwise distinct; [1; 2] and [2; 1] are both valid certificates for k = 2
+   (and [0; 1] is not) *)
+From Coq Require Import Lia.
+Example C03_distinct_distances_hypothesis_satisfiable :
+  distinct_distances QcNum [q 3; q 1; q 2] /\
+  knn_valid QcNum [q 3; q 1; q 2] 2 [1; 2]%nat = true /\ knn_valid QcNum [q 3; q 1; q 2] 2 [2; 1]%nat = true /\
+  knn_valid QcNum [q 3; q 1; q 2] 2 [0; 1]%nat = false.
+Proof.
+  split; [|split; [vm_compute; reflexivity | split; vm_compute; reflexivity]].
+  intros i j Hi Hj Hne. simpl in Hi, Hj.
+  destruct i as [|[|[|i]]]; destruct j as [|[|[|j]]]; try lia; vm_compute; discriminate.
+Qed.
 
